@@ -106,6 +106,13 @@ pub fn bodies(tier: &str) -> Vec<crate::e3::BodySpec> {
         bound: if q { 1 } else { 2 },
         secs: if q { 6.0 } else { 200.0 },
     }];
+    // a bulk ingestion into one of the batch's keyspaces finishes meanwhile (it flushes that keyspace and registers
+    // tables with a newer seqno): recovery must still replay the batch as a whole
+    v.push(crate::e3::BodySpec {
+        body: Arc::new(VisBody { name: "batch(x.a,y.a) || ingest x; crash image: batch all-or-nothing [focus:write-path]", kind: Kind::Plain, workers: 0, keyspaces: vec!["x", "y"], initial: vec![("x", "ab", "0")], prerotate: vec![], threads: vec![vec![Act::Batch(vec![("x", "a", "1"), ("y", "a", "1")])], vec![Act::Ingest("x", vec![("b", "5")])]], finals: Finals::CrashAtomic }),
+        bound: 2,
+        secs: if q { 4.0 } else { 120.0 },
+    });
     if !q {
         v.push(crate::e3::BodySpec {
             body: Arc::new(VisBody { name: "sw-tx(x.a,x.b,y.a) || rotate x || worker flush; crash image: tx all-or-nothing [focus:commit-path]", kind: Kind::Sw, workers: 1, keyspaces: vec!["x", "y"], initial: vec![("x", "ab", "0")], prerotate: vec![], threads: vec![vec![Act::Tx(vec![("x", "a", "1"), ("x", "b", "1"), ("y", "a", "1")])], vec![Act::Rotate("x")]], finals: Finals::CrashAtomic }),
